@@ -16,23 +16,41 @@
     prefix, and the cleaning specification in terms of `cfg.arith.exceeds`.
   * Theorems that say what the CODE's run is in terms of EXACT times
     (`corpus_eq`, `not_found_listed`, `corpus_error_prefix`, `clean_document_code`)
-    carry, for every document among the `.gz` files,
-      `TimesExact fps brk d`        — decidable; what `harness/run_C19.py`
-                                      (`times_ok` / `margin_ok`) guarantees of every
-                                      generated document, plus the literal domain;
-      `FloatCompareAgrees fps brk d` — NAMED ASSUMPTION (IEEE-754 rounding, see its
-                                      docstring in PyndlModel/Corpus.lean):
-                                      `TimesExact → CompareAgrees float rational`.
-    Lean's kernel evaluates `Float` on closed terms, so for concrete documents
-    `FloatCompareAgrees` is PROVED (`decide +kernel`, examples below), and the
-    reviewer's counterexample (`E 00:00:03,08` / `S 00:00:08,08`: the code breaks
-    the paragraph, exact arithmetic does not) is a theorem (`boundary_pair`).
-    Before this repair the file claimed "every document content" for a
-    rational-only model; that was false about the code on such pairs.
+    carry ONE hypothesis linking the two arithmetics, for every document `d`
+    among the `.gz` files:
+      `CodeCompareAgrees fps brk d` = `CompareAgrees (floatArith fps (floatOfRat brk))
+                                       (ratArith fps brk) d`
+    — DECIDABLE: "the doubles and the rationals order every pair of times the
+    reader can compare on `d` the same way" (its other clause, "both accept the
+    same time values", always holds: `codeCompareAgrees_iff`).  So these
+    theorems say: IF the double and the exact comparisons agree on the
+    documents, the two runs are the same run.  What is proved is the lifting
+    from the single comparisons to the reader and to the whole corpus run
+    (`readClean_agree`, `createCorpus_agree`: inductions over tags, sentences,
+    files); the hypothesis is the step from doubles to rationals itself.  It is
+    a CHECKED fact per test: the driver evaluates it on every document of every
+    request (`compare_agrees`, next to `times_exact`), and the kernel evaluates
+    it in the examples below (`decide +kernel`: `Float` on closed terms).
+    The reviewer's counterexample (`E 00:00:03,08` / `S 00:00:08,08`: the code
+    breaks the paragraph, exact arithmetic does not) is a theorem
+    (`boundary_pair`).
+  * OPEN (not proved, used only by the corollaries `*_of_times_exact`):
+    `TimesExactSuffices fps brk` — every document in the decidable class
+    `TimesExact` (whole-second times, or every pause at least one frame away
+    from the break duration; fields below 2^24) satisfies `CodeCompareAgrees`.
+    The IEEE rounding argument is in its docstring (PyndlModel/Corpus.lean).
+    HISTORY: until the second review the main theorems took `TimesExact d` AND
+    a "named assumption" `FloatCompareAgrees d := TimesExact d → CompareAgrees d`;
+    every use was `hF hT`, i.e. the pair was equivalent to `CompareAgrees d`
+    alone and `TimesExact` did no formal work.  That is now said openly.
   * Literal domain: the code calls `float()` on each of the four fields
     (corpus.py:31-34).  The executable arithmetics read non-empty ASCII digit
-    strings only; `LitDomain` (part of `TimesExact`) says when that is what
-    `float` does, and `parse_time_error_in_domain` covers the error branch.
+    strings only; `LitDomain` says when that is what `float` does, and
+    `parse_time_error_in_domain` covers the error branch.  `LitDomain` is NOT
+    part of `CodeCompareAgrees`: on a value such as `'00:00:1.5,00'` the model
+    (both arithmetics) raises `ValueError` and the code does not; the exact-time
+    theorems relate the two MODEL runs and are about the code only on
+    documents in the literal domain (the driver's `times_exact` implies it).
 
   trusted: Lean `Float` +,-,*,/,<,ofNat are the C double operations CPython
   uses; `floatAccepts` is CPython's `float(str)` grammar on ASCII (compared
@@ -59,21 +77,26 @@ theorem corpus_eq_any_arith {τ : Type} (cfg : Cfg τ) (n : Nat) (directory outf
   rw [createCorpus_ok cfg n directory outfile w tree hd ho hn hr]
   exact ⟨rfl, rfl⟩
 
-/-- the two hypotheses under which the run over doubles is the run over exact
-    times: every document among the `.gz` files satisfies `TimesExact` (checked,
-    decidable) and `FloatCompareAgrees` (the named IEEE assumption) -/
+/-- the hypothesis under which the run over doubles is the run over exact
+    times: on every document among the `.gz` files the doubles and the
+    rationals order every pair of times the reader can compare the same way
+    (`CodeCompareAgrees`, decidable) -/
 theorem code_eq_exact (fps : Nat) (brk : Rat) (marker : Str) (n : Nat) (directory outfile : Str)
     (w : World) (tree : List (Str × Entry))
-    (hT : AllDocs (TimesExact fps brk) (gzFiles directory tree))
-    (hF : AllDocs (FloatCompareAgrees fps brk) (gzFiles directory tree)) :
+    (hC : AllDocs (CodeCompareAgrees fps brk) (gzFiles directory tree)) :
     createCorpus (cfgF fps brk marker) n directory outfile w tree
-      = createCorpus (cfgQ fps brk marker) n directory outfile w tree := by
-  apply createCorpus_agree (cfgF fps brk marker) (cfgQ fps brk marker) rfl
+      = createCorpus (cfgQ fps brk marker) n directory outfile w tree :=
+  createCorpus_agree (cfgF fps brk marker) (cfgQ fps brk marker) rfl n directory outfile w tree hC
+
+/-- under the OPEN statement `TimesExactSuffices`, documents in the decidable
+    class `TimesExact` satisfy the hypothesis of the exact-time theorems -/
+theorem agrees_of_times_exact (fps : Nat) (brk : Rat) (hS : TimesExactSuffices fps brk)
+    (gz : List (Str × Entry)) (hT : AllDocs (TimesExact fps brk) gz) :
+    AllDocs (CodeCompareAgrees fps brk) gz := by
   intro p hp
   have h1 := hT p hp
-  have h2 := hF p hp
   cases he : p.2 with
-  | doc d => rw [he] at h1 h2; exact h2 h1
+  | doc d => rw [he] at h1; exact hS d h1
   | dangling => trivial
   | notGzip => trivial
   | dir => trivial
@@ -82,19 +105,32 @@ theorem code_eq_exact (fps : Nat) (brk : Rat) (marker : Str) (n : Nat) (director
     over IEEE doubles (`cfgF`) returns normally and writes the concatenation,
     over the `.gz` files in sorted path order, of the lines of each readable
     document as the EXACT-time reader (`cfgQ`) cleans it, each followed by the
-    marker — provided every document satisfies `TimesExact` and
-    `FloatCompareAgrees` (see the file header; without them the statement is
-    false: `boundary_pair`). -/
+    marker — provided that on every document the double and the exact
+    comparisons agree (`CodeCompareAgrees`, decidable; see the file header;
+    without it the statement is false: `boundary_pair`). -/
 theorem corpus_eq (fps : Nat) (brk : Rat) (marker : Str) (n : Nat) (directory outfile : Str) (w : World)
     (tree : List (Str × Entry)) (hd : w.dirExists = true) (ho : outfile ∉ w.files) (hn : 0 < n)
-    (hT : AllDocs (TimesExact fps brk) (gzFiles directory tree))
-    (hF : AllDocs (FloatCompareAgrees fps brk) (gzFiles directory tree))
+    (hC : AllDocs (CodeCompareAgrees fps brk) (gzFiles directory tree))
     (hr : ∀ p ∈ gzFiles directory tree, readable (cfgQ fps brk marker) p.2 = true) :
     (createCorpus (cfgF fps brk marker) n directory outfile w tree).raised = none ∧
     (createCorpus (cfgF fps brk marker) n directory outfile w tree).corpus
       = some ((gzFiles directory tree).flatMap (fun p => docPieces (cfgQ fps brk marker) p.2)) := by
-  rw [code_eq_exact fps brk marker n directory outfile w tree hT hF]
+  rw [code_eq_exact fps brk marker n directory outfile w tree hC]
   exact corpus_eq_any_arith _ n directory outfile w tree hd ho hn hr
+
+/-- **corpus_eq_of_times_exact** (corollary under the OPEN statement
+    `TimesExactSuffices`): `corpus_eq` for trees all of whose documents are in
+    the decidable class `TimesExact`. -/
+theorem corpus_eq_of_times_exact (fps : Nat) (brk : Rat) (marker : Str) (n : Nat) (directory outfile : Str)
+    (w : World) (tree : List (Str × Entry)) (hS : TimesExactSuffices fps brk)
+    (hd : w.dirExists = true) (ho : outfile ∉ w.files) (hn : 0 < n)
+    (hT : AllDocs (TimesExact fps brk) (gzFiles directory tree))
+    (hr : ∀ p ∈ gzFiles directory tree, readable (cfgQ fps brk marker) p.2 = true) :
+    (createCorpus (cfgF fps brk marker) n directory outfile w tree).raised = none ∧
+    (createCorpus (cfgF fps brk marker) n directory outfile w tree).corpus
+      = some ((gzFiles directory tree).flatMap (fun p => docPieces (cfgQ fps brk marker) p.2)) :=
+  corpus_eq fps brk marker n directory outfile w tree hd ho hn
+    (agrees_of_times_exact fps brk hS _ hT) hr
 
 /-- what "the `.gz` files in sorted path order" means: `gzFiles` is a
     permutation of the non-directory paths ending in `.gz` (joined with the
@@ -121,14 +157,13 @@ theorem corpus_error_prefix_any_arith {τ : Type} (cfg : Cfg τ) (n : Nat) (dire
     the exact-time lines of the documents before it; no `.not_found` file. -/
 theorem corpus_error_prefix (fps : Nat) (brk : Rat) (marker : Str) (n : Nat) (directory outfile : Str)
     (w : World) (tree : List (Str × Entry)) (hd : w.dirExists = true) (ho : outfile ∉ w.files) (hn : 0 < n)
-    (hT : AllDocs (TimesExact fps brk) (gzFiles directory tree))
-    (hF : AllDocs (FloatCompareAgrees fps brk) (gzFiles directory tree))
+    (hC : AllDocs (CodeCompareAgrees fps brk) (gzFiles directory tree))
     (pre post : List (Str × Entry)) (p : Str × Entry) (hs : gzFiles directory tree = pre ++ p :: post)
     (hr : ∀ q ∈ pre, readable (cfgQ fps brk marker) q.2 = true)
     (hp : readable (cfgQ fps brk marker) p.2 = false) :
     ∃ e, createCorpus (cfgF fps brk marker) n directory outfile w tree
       = ⟨some e, some (pre.flatMap (fun q => docPieces (cfgQ fps brk marker) q.2)), none⟩ := by
-  rw [code_eq_exact fps brk marker n directory outfile w tree hT hF]
+  rw [code_eq_exact fps brk marker n directory outfile w tree hC]
   exact createCorpus_error _ n directory outfile w tree hd ho hn pre post p hs hr hp
 
 /-- **threads_independent (1).** `Pool.imap` hands out the results in
@@ -186,11 +221,10 @@ theorem not_found_listed_any_arith {τ : Type} (cfg : Cfg τ) (n : Nat) (directo
 
 /-- **not_found_listed** (the code's arithmetic, exact-time specification):
     `not_found_listed_any_arith` for the run over doubles with the corpus given
-    by the exact-time reader, under `TimesExact` and `FloatCompareAgrees`. -/
+    by the exact-time reader, under `CodeCompareAgrees` for every document. -/
 theorem not_found_listed (fps : Nat) (brk : Rat) (marker : Str) (n : Nat) (directory outfile : Str)
     (w : World) (tree : List (Str × Entry)) (hd : w.dirExists = true) (ho : outfile ∉ w.files) (hn : 0 < n)
-    (hT : AllDocs (TimesExact fps brk) (gzFiles directory tree))
-    (hF : AllDocs (FloatCompareAgrees fps brk) (gzFiles directory tree))
+    (hC : AllDocs (CodeCompareAgrees fps brk) (gzFiles directory tree))
     (hr : ∀ p ∈ gzFiles directory tree, readable (cfgQ fps brk marker) p.2 = true)
     (hnd : (tree.map (·.1)).Nodup) :
     let o := createCorpus (cfgF fps brk marker) n directory outfile w tree
@@ -201,7 +235,7 @@ theorem not_found_listed (fps : Nat) (brk : Rat) (marker : Str) (n : Nat) (direc
     (∀ p ∈ gzFiles directory tree, isDangling p.2 = true → missing.count (p.1 ++ ['\n']) = 1) ∧
     o.corpus = some (((gzFiles directory tree).filter (fun p => !isDangling p.2)).flatMap
                       (fun p => docPieces (cfgQ fps brk marker) p.2)) := by
-  rw [code_eq_exact fps brk marker n directory outfile w tree hT hF]
+  rw [code_eq_exact fps brk marker n directory outfile w tree hC]
   exact not_found_listed_any_arith _ n directory outfile w tree hd ho hn hr hnd
 
 /-- **sort_total (1).** Python's string order on paths is a strict total order. -/
@@ -418,15 +452,23 @@ theorem clean_document {τ : Type} (cfg : Cfg τ) (d : Document) :
     (d.all (regular cfg) = false ∧ readClean cfg d = .error .value) :=
   readClean_total cfg d
 
-/-- **clean_document_code.** On a document satisfying `TimesExact` and the
-    named assumption `FloatCompareAgrees`, the reader over doubles (the code)
-    yields exactly what the reader over exact times yields — the same lines or
-    the same exception — so `clean_document` with `paragraph_break_iff`
-    describes the code's output. -/
+/-- **clean_document_code.** On a document on which the doubles and the
+    rationals order every pair of times the reader can compare the same way
+    (`CodeCompareAgrees`, decidable), the reader over doubles (the code) yields
+    exactly what the reader over exact times yields — the same lines or the
+    same exception — so `clean_document` with `paragraph_break_iff` describes
+    the code's output. -/
 theorem clean_document_code (fps : Nat) (brk : Rat) (marker : Str) (d : Document)
-    (hT : TimesExact fps brk d) (hF : FloatCompareAgrees fps brk d) :
+    (hC : CodeCompareAgrees fps brk d) :
     readClean (cfgF fps brk marker) d = readClean (cfgQ fps brk marker) d :=
-  readClean_agree (cfgF fps brk marker) (cfgQ fps brk marker) d (hF hT)
+  readClean_agree (cfgF fps brk marker) (cfgQ fps brk marker) d hC
+
+/-- **clean_document_code_of_times_exact** (corollary under the OPEN statement
+    `TimesExactSuffices`) -/
+theorem clean_document_code_of_times_exact (fps : Nat) (brk : Rat) (marker : Str) (d : Document)
+    (hS : TimesExactSuffices fps brk) (hT : TimesExact fps brk d) :
+    readClean (cfgF fps brk marker) d = readClean (cfgQ fps brk marker) d :=
+  clean_document_code fps brk marker d (hS d hT)
 
 /-! ## Non-vacuity
 
@@ -435,8 +477,8 @@ first sentence (paragraph break), punctuation and an empty sentence whose bad
 time tag is skipped; `B.gz` dangling; a nested `a/x.gz` (empty document), a
 directory named `d.gz`, a non-`.gz` file.  `B.gz` sorts before `a/x.gz` before
 `b.gz` (code points).  ALL hypotheses of `corpus_eq` / `not_found_listed` hold —
-`TimesExact` and `FloatCompareAgrees` are evaluated by the kernel, doubles
-included — and the outcome of the run over doubles is the expected non-trivial
+`CodeCompareAgrees` is evaluated by the kernel, doubles included (the tree is
+also inside `TimesExact`) — and the outcome of the run over doubles is the expected non-trivial
 one; an existing `out.not_found` moves the list to `out.not_found-1`. -/
 
 def exTree : List (Str × Entry) :=
@@ -453,8 +495,9 @@ def exWorld : World := ⟨true, ["out.not_found".toList]⟩
 theorem exTree_times_exact : AllDocs (TimesExact specFps specBreak) (gzFiles "t".toList exTree) := by
   decide +kernel
 
-/-- the named assumption, PROVED for this tree: the kernel evaluates the doubles -/
-theorem exTree_float_agrees : AllDocs (FloatCompareAgrees specFps specBreak) (gzFiles "t".toList exTree) := by
+/-- the hypothesis of the exact-time theorems, PROVED for this tree: the kernel
+    evaluates the doubles -/
+theorem exTree_float_agrees : AllDocs (CodeCompareAgrees specFps specBreak) (gzFiles "t".toList exTree) := by
   decide +kernel
 
 theorem exTree_readable : ∀ p ∈ gzFiles "t".toList exTree, readable specCfg p.2 = true := by
@@ -466,11 +509,11 @@ example :
     (createCorpus specCfgF 3 "t".toList "out".toList exWorld exTree).corpus
       = some ((gzFiles "t".toList exTree).flatMap (fun p => docPieces specCfg p.2)) :=
   corpus_eq specFps specBreak specMarker 3 "t".toList "out".toList exWorld exTree (by decide +kernel)
-    (by decide +kernel) (by decide) exTree_times_exact exTree_float_agrees exTree_readable
+    (by decide +kernel) (by decide) exTree_float_agrees exTree_readable
 
 example :=
   not_found_listed specFps specBreak specMarker 3 "t".toList "out".toList exWorld exTree (by decide +kernel)
-    (by decide +kernel) (by decide) exTree_times_exact exTree_float_agrees exTree_readable
+    (by decide +kernel) (by decide) exTree_float_agrees exTree_readable
     (by decide +kernel)
 
 /-- … and what they say here, evaluated for the run over doubles -/
@@ -491,7 +534,7 @@ def exTreeBad : List (Str × Entry) :=
 example : ∃ e, createCorpus specCfgF 2 "t".toList "out".toList exWorld exTreeBad
     = ⟨some e, some (((gzFiles "t".toList exTreeBad).take 3).flatMap (fun q => docPieces specCfg q.2)), none⟩ :=
   corpus_error_prefix specFps specBreak specMarker 2 "t".toList "out".toList exWorld exTreeBad
-    (by decide +kernel) (by decide +kernel) (by decide) (by decide +kernel) (by decide +kernel)
+    (by decide +kernel) (by decide +kernel) (by decide) (by decide +kernel)
     ((gzFiles "t".toList exTreeBad).take 3) []
     ("t/c.gz".toList, .doc [⟨[some "x".toList], [⟨"T1X".toList, "00:00:01,00".toList⟩]⟩])
     (by decide +kernel) (by decide +kernel) (by decide +kernel)
@@ -503,7 +546,7 @@ def exPause : Document :=
    ⟨[some "b".toList], [⟨"S".toList, "00:00:05,29".toList⟩]⟩,
    ⟨[some "c".toList], [⟨"S".toList, "00:00:06,01".toList⟩]⟩]
 
-example : TimesExact specFps specBreak exPause ∧ FloatCompareAgrees specFps specBreak exPause ∧
+example : TimesExact specFps specBreak exPause ∧ CodeCompareAgrees specFps specBreak exPause ∧
     readClean specCfg exPause = .ok ["a\n".toList, "b\n".toList, "\nc\n".toList] ∧
     readClean specCfgF exPause = .ok ["a\n".toList, "b\n".toList, "\nc\n".toList] := by
   refine ⟨by decide +kernel, by decide +kernel, by decide +kernel, by decide +kernel⟩
@@ -515,7 +558,7 @@ def exWhole : Document :=
    ⟨[some "b".toList], [⟨"S".toList, "00:00:08,00".toList⟩, ⟨"E".toList, "00:00:07,30".toList⟩]⟩,
    ⟨[some "c".toList], [⟨"S".toList, "00:00:14:00".toList⟩]⟩]
 
-example : TimesExact specFps specBreak exWhole ∧ FloatCompareAgrees specFps specBreak exWhole ∧
+example : TimesExact specFps specBreak exWhole ∧ CodeCompareAgrees specFps specBreak exWhole ∧
     readClean specCfgF exWhole = .ok ["a\n".toList, "b\n".toList, "\nc\n".toList] := by
   refine ⟨by decide +kernel, by decide +kernel, by decide +kernel⟩
 
@@ -523,8 +566,8 @@ example : TimesExact specFps specBreak exWhole ∧ FloatCompareAgrees specFps sp
     `S 00:00:08,08` is a pause of exactly 5 s between fractional times.  The
     double difference is 5.000000000000001 > 5.0: the CODE (and the model over
     doubles) starts a new paragraph, exact arithmetic does not.  The document
-    violates `TimesExact` and `CompareAgrees`; this is why the hypotheses of
-    `corpus_eq` are needed. -/
+    violates `TimesExact` and `CompareAgrees`; this is why the hypothesis of
+    `corpus_eq` is needed. -/
 def exBoundary : Document :=
   [⟨[some "a".toList], [⟨"E".toList, "00:00:03,08".toList⟩]⟩,
    ⟨[some "b".toList], [⟨"S".toList, "00:00:08,08".toList⟩]⟩]
@@ -533,7 +576,7 @@ theorem boundary_pair :
     readClean specCfgF exBoundary = .ok ["a\n".toList, "\nb\n".toList] ∧
     readClean specCfg exBoundary = .ok ["a\n".toList, "b\n".toList] ∧
     ¬ TimesExact specFps specBreak exBoundary ∧
-    ¬ CompareAgrees specCfgF.arith specCfg.arith exBoundary := by
+    ¬ CodeCompareAgrees specFps specBreak exBoundary := by
   refine ⟨by decide +kernel, by decide +kernel, by decide +kernel, by decide +kernel⟩
 
 /-- an unknown tag type is a `ValueError` -/
@@ -569,6 +612,73 @@ example :
     readClean specCfg exDoc = .ok ["\nHi, you!\n".toList, "ok.\n".toList] := by
   refine ⟨by decide +kernel, by decide +kernel, by decide +kernel⟩
 
+/-- `clean_document_code` APPLIED (hypothesis evaluated by the kernel): on
+    `exPause` and `exWhole` the code's reader is the exact-time reader … -/
+example : readClean specCfgF exPause = readClean specCfg exPause :=
+  clean_document_code specFps specBreak specMarker exPause (by decide +kernel)
+
+example : readClean specCfgF exWhole = readClean specCfg exWhole :=
+  clean_document_code specFps specBreak specMarker exWhole (by decide +kernel)
+
+/-- … also with the break duration 7/2 (not the code's default; the harness
+    uses it), where `floatOfRat` is a genuine division -/
+example : readClean (cfgF specFps (7 / 2) specMarker) exPause = readClean (cfgQ specFps (7 / 2) specMarker) exPause :=
+  clean_document_code specFps (7 / 2) specMarker exPause (by decide +kernel)
+
+/-- … and on `exBoundary` its hypothesis fails and so does its conclusion -/
+example : ¬ CodeCompareAgrees specFps specBreak exBoundary ∧
+    readClean specCfgF exBoundary ≠ readClean specCfg exBoundary := by
+  refine ⟨by decide +kernel, by decide +kernel⟩
+
+/-- `clean_sentence` APPLIED, clause (2), to `exSentence` (all hypotheses
+    instantiated): the line and the new `last_time` -/
+example :
+    sentenceLine specCfg 0 exSentence
+      = .ok (some (List.replicate (breakCount specCfg 0 exSentence.times) '\n' ++
+                strip (["\t".toList, "Hi".toList, ",".toList, "you".toList, "!".toList, " ".toList].flatMap token)
+                ++ ['\n']),
+             lastE specCfg 0 exSentence.times) :=
+  (clean_sentence specCfg 0 exSentence
+      ["\t".toList, "Hi".toList, ",".toList, "you".toList, "!".toList, " ".toList] rfl).2.1
+    (by decide +kernel) (by decide +kernel)
+
+/-- `clean_sentence` APPLIED, clause (1): a sentence of blanks yields nothing and
+    its (bad) time tag is not looked at; clause (3): the first unacceptable tag
+    of a non-blank sentence raises `ValueError` -/
+example : sentenceLine specCfg 7 ⟨[some " ".toList, some "\t".toList], [⟨"TX".toList, "bad".toList⟩]⟩
+    = .ok (none, 7) :=
+  (clean_sentence specCfg 7 ⟨[some " ".toList, some "\t".toList], [⟨"TX".toList, "bad".toList⟩]⟩
+      [" ".toList, "\t".toList] rfl).1 (by decide +kernel)
+
+example : sentenceLine specCfg 0
+    ⟨[some "a".toList], [⟨"T1S".toList, "00:00:06,00".toList⟩, ⟨"T1X".toList, "00:00:07,00".toList⟩,
+                          ⟨"T2S".toList, "zz".toList⟩]⟩ = .error .value :=
+  (clean_sentence specCfg 0 _ ["a".toList] rfl).2.2 (by decide +kernel)
+    [⟨"T1S".toList, "00:00:06,00".toList⟩] ⟨"T1X".toList, "00:00:07,00".toList⟩
+    [⟨"T2S".toList, "zz".toList⟩] rfl (by decide +kernel) (by decide +kernel)
+
+/-- `paragraph_break_iff` APPLIED in both directions: with `last_time = 1` an
+    `S` tag at 6 s + 1 frame breaks (`181/30 − 1 > 5`), one at exactly 6 s does
+    not (`6 − 1 > 5` is false: the test is strict), and an `E` tag never does -/
+example : breaksAt specCfg 1 ⟨"T1S".toList, "00:00:06,01".toList⟩ = true :=
+  (paragraph_break_iff specFps specBreak specMarker 1 ⟨"T1S".toList, "00:00:06,01".toList⟩).mpr
+    ⟨by decide +kernel, (181 : Rat) / 30, by decide +kernel, by decide +kernel⟩
+
+example : breaksAt specCfg 1 ⟨"T1S".toList, "00:00:06,00".toList⟩ ≠ true := by
+  intro h
+  obtain ⟨_, cur, hp, hgt⟩ :=
+    (paragraph_break_iff specFps specBreak specMarker 1 ⟨"T1S".toList, "00:00:06,00".toList⟩).mp h
+  have hc : cur = 6 := by
+    have h6 : parseTime (ratArith specFps specBreak) "00:00:06,00".toList = .ok 6 := by decide +kernel
+    rw [h6] at hp
+    exact (Except.ok.inj hp).symm
+  subst hc
+  revert hgt
+  decide +kernel
+
+example : breaksAt specCfg 1 ⟨"T1E".toList, "00:00:16,01".toList⟩ ≠ true :=
+  fun h => absurd ((paragraph_break_iff specFps specBreak specMarker 1 _).mp h).1 (by decide +kernel)
+
 /-- the literal domain: digit fields and certainly rejected fields are inside,
     spellings only `float` accepts are outside (and there the model's
     `ValueError` is not the code's behaviour) -/
@@ -581,8 +691,9 @@ example :
     LitDomain "00:00:1.5,xx".toList = true := by
   decide +kernel
 
-/-- a document with such a spelling is outside `TimesExact`: none of the
-    exact-time theorems speaks about it -/
+/-- a document with such a spelling is outside `TimesExact` (the driver reports
+    `times_exact = false`): the exact-time theorems still relate the two MODEL
+    runs on it, but the model is not the code there -/
 example : ¬ TimesExact specFps specBreak [⟨[some "a".toList], [⟨"T1S".toList, "00:00:1.5,00".toList⟩]⟩] := by
   decide +kernel
 
